@@ -10,6 +10,18 @@ for l in open(os.path.join(HERE, "properties.jsonl")):
 # id -> (level text, level note, technique, design_ref)
 TECH = 'Lean 4 proof about hand-written model + differential correspondence with the implementation'
 CLAIMS = {
+    'C06': (
+        "Lean 4 round-trip theorem Pta.C06.roundtrip: for EVERY diagram of the documented subset (any interleaving of declaration lines in the 3 declaration forms with optional 'as alias' on the bracketed forms and arrow lines in all 6 arrow forms with bracketed / bare / alias references; names = identifiers or dotted names; arbitrary text before @startuml, text without @enduml after the end tag) the model of PumlParser.parse returns exactly the declared-or-referenced component names with aliases resolved and exactly the drawn dependor->dependee relation; order_irrelevant and presentation_irrelevant (line order / alias-vs-name spelling do not matter), no_tags (parsing error), plus the layer lemmas (decl_line_modules, arrow_line_dependency, body_of_text, aggregate_law for arbitrary per-line results). Tie: diagrams rendered from random component relations in every documented form, real PumlParser().parse vs the model vs the generating relation.",
+        "The regex engine is not modelled: the line recognisers were written after the two regular expressions and their agreement with Python's re on documented lines rests on the correspondence run. Outside the subset (bracketed alias, second @enduml in trailing text) two boundary theorems state what the model does; the real code agrees. Trusted: Lean kernel, harness/driver.",
+        TECH,
+        '6/C06',
+    ),
+    'C04': (
+        'Lean 4 theorems about the scan model for every directory listing of tree shape (paths duplicate-free, parents listed), every module_path, every exclusion predicate: walk_modules_exact / walk_files_exact (the walk finds exactly one module per non-excluded directory / .py file at or below module_path with no excluded directory in between; fuel sufficiency proved), moduleName_entryName, graph_modules_exact / graph_modules_explicit (graph nodes = those modules plus every ancestor package up to the root), hierarchy_exact, submodules_exact (sub modules = nodes whose dotted name extends the module), scan_wf (the scanned graph is the graph of a well-formed architecture - this discharges the standing hypotheses of C01/C03 for scanned architectures), subscan_modules (scanning a sub directory = scanning the root restricted to it), parent_relative_resolves. Tie: real scans of generated trees (every directory as module_path, both entry points) vs the model vs the specification.',
+        'Partial: sub-scan IMPORT equality and the module-object entry point (dirname(__file__) delegation) are checked by correspondence only, not stated as theorems; pathlib / import-system behaviour is exercised, not modelled. Name conditions (dot-free directory names and .py stems, no x.py next to x/) are hypotheses on the entries the scan can see. Trusted: Lean kernel, harness/driver.',
+        TECH,
+        '6/C04',
+    ),
     'C10': (
         'Lean 4 theorems about the scan model for every tree, every option record and ANY level limit: internal_invariant / internal_invariant_perm / internal_invariant_errors (two runs that differ only in exclude_external_libraries and external exclusion patterns have the same internal modules, internal imports and internal hierarchy edges, and fail on the same inputs), externals_excluded (default: every node is a parsed module or one of its ancestors, every import ends in an internal module), externals_included / externals_included_limit (a retained external importee and all its ancestors are nodes with the import edge; an external matching a pattern, or with a matching ancestor, is neither node nor edge end). Tie: real scans under all option sets vs the model; internal sub-architecture compared across option sets on the implementation.',
         'Trusted: Lean kernel, harness/driver; user regexes uninterpreted; the directory walk and the AST are parameters of the model.',
